@@ -311,8 +311,10 @@ pub fn leaf_poll(id: Cid, cx: &mut Context<'_>) -> Option<Res> {
         let pct = w.midfire_pct;
         let nfire = if w.small_mode {
             0
-        } else if pct > 0 && w.chance(pct) {
-            1 + w.below(2)
+        } else if pct > 0 && w.midfire_left > 0 && w.chance(pct) {
+            let k = 1 + w.below(2);
+            w.midfire_left = w.midfire_left.saturating_sub(k as u32);
+            k
         } else {
             0
         };
